@@ -965,6 +965,38 @@ func nestedTrig(doc string) string {
 	return "requiredness/nested,no-null-member"
 }
 
+// enumAliasKeys: JSON keys declared through api.key that contain bytes below '.' (the Go name tables and their
+// native twins map such bytes to table slots separately), chosen so that the byte sits at the position the trie
+// indexes; every member alone and all together, with and without an unknown sibling.
+func enumAliasKeys(yield func(core.Case) bool) {
+	fams := [][]string{{"user-id", "item_id"}, {"$ref", "href"}, {"a+b", "a_b", "a b"}, {"x-1", "x.1", "x/1", "x#1", "x&1"}, {"-", "."}, {"k!", "k~", "k-"}}
+	for fi, keys := range fams {
+		var body []string
+		for i, k := range keys {
+			body = append(body, fmt.Sprintf("  %d: i32 f%d (api.key = %q)", i+1, i+1, k))
+		}
+		idl := "namespace go verif\nstruct S0 {\n" + strings.Join(body, "\n") + "\n}\nstruct Root {\n  1: S0 f1\n}\nservice Svc {\n  Root M(1: Root req)\n}\n"
+		var docs []string
+		all := ""
+		for i, k := range keys {
+			m := fmt.Sprintf("%q:%d", k, 10+i)
+			docs = append(docs, "{"+m+"}", `{"zz":0,`+m+"}")
+			if all != "" {
+				all += ","
+			}
+			all += m
+		}
+		docs = append(docs, "{"+all+"}")
+		for _, d := range docs {
+			doc := `{"f1":` + d + `}`
+			jd := &j2tDoc{Fam: fmt.Sprintf("alias-keys-with-low-bytes/%d", fi), Trig: "keys/alias-with-a-byte-below-'.'", IDL: idl, Doc: doc, Oracle: func(int) int { return oDiff }}
+			if !yield(jd.Case()) {
+				return
+			}
+		}
+	}
+}
+
 func enumReq(tier string, yield func(core.Case) bool) {
 	for si, s := range reqShapes() {
 		idl := tbin.IDL(s, false)
